@@ -1,17 +1,21 @@
 #!/bin/bash
-# usage: tools/seeded_matrix.sh [tier]  - applies every seeded/<id>/patch.diff to a scratch worktree of /repo HEAD and runs the
-# check of its property (VERIF_REPO=<worktree>); prints one line per seeded change. Worktree is removed afterwards.
-tier=${1:-quick}
+# usage: tools/seeded_matrix.sh [tier] [id-prefix]  - applies every seeded/<id>/patch.diff to a scratch worktree of /repo HEAD and runs
+# the checks named in its meta.json "caught_by" (or the check of its property) with VERIF_REPO=<worktree>; one line per change.
+tier=${1:-quick}; filter=${2:-}
 cd "$(dirname "$0")/.."
 wt=/tmp/vp-matrix-wt
 git -C /repo worktree remove --force $wt 2>/dev/null
 git -C /repo worktree add -q --detach $wt HEAD || exit 1
-for d in seeded/*/; do
+for d in seeded/${filter}*/; do
   id=$(basename $d); prop=${id%%-*}
+  checks=$(python3 -c "import json;m=json.load(open('$d/meta.json'));print(' '.join(m['caught_by']) or '$prop')")
   git -C $wt checkout -q -- . ; git -C $wt apply $PWD/$d/patch.diff 2>/dev/null || { echo "$id: patch does not apply to HEAD"; continue; }
-  v=$(VERIF_REPO=$wt timeout 3000 /venv/bin/python check $prop --tier $tier 2>&1 | grep -E "^(HELD|VIOLATED|INCONCLUSIVE)" | cut -d' ' -f1)
-  first=$(VERIF_REPO=$wt true; grep -h -m1 -o '"what": "[^"]*' replays/$prop/*.json 2>/dev/null | head -1 | cut -c10-110)
-  echo "$id: $prop $tier -> $v | $first"
+  line="$id:"
+  for c in $checks; do
+    v=$(VERIF_REPO=$wt timeout 3000 /venv/bin/python check $c --tier $tier 2>&1 | grep -E "^(HELD|VIOLATED|INCONCLUSIVE)" | cut -d' ' -f1)
+    line="$line $c=$v"
+  done
+  echo "$line"
 done
 git -C $wt checkout -q -- .
 git -C /repo worktree remove --force $wt
